@@ -542,6 +542,10 @@ func DecryptAsn1(pub *PrivateKey, data []byte) ([]byte, error) {
 *  CipherText
  */
 func CipherMarshal(data []byte) ([]byte, error) {
+	// 0x04 || x || y || C3: anything shorter is not a ciphertext (EncryptAsn1 passes Encrypt's output)
+	if len(data) < 1+32+32+32 {
+		return nil, errors.New("sm2: ciphertext too short")
+	}
 	data = data[1:]
 	x := new(big.Int).SetBytes(data[:32])
 	y := new(big.Int).SetBytes(data[32:64])
